@@ -3,7 +3,14 @@
 
 usage: python -m vmon.crashchild '<json>'
   {"cfg": {...}, "policy": "free", "seed": 1, "env": {...},
-   "crash": null | {"commit": n} | {"gate": n} | {"after_write": n}}
+   "crash": null | {"commit": n} | {"gate": n} | {"after_write": n}
+            | {"commit_after_events": n} | {"gate_after_events": n}   (watch sessions: counted from the
+              moment the file-system events have been applied),
+   "watch": null | {"seed": n, "nev": k, "user_files": [...]}}
+With "watch", the director runs in watch mode: after the first build phase the child applies `nev`
+file-system events (those of C14, drawn from `seed`), waits until the watcher has seen them, starts
+the rebuild, waits for it and shuts the director down.  Commits are counted over the whole session,
+so a crash point can fall into the watch phase, the rebuild or the shutdown.
 Appends one JSON line per event of interest to `.crash-events.jsonl` (unbuffered), so the parent
 knows which commands were running when the process died.
 """
@@ -35,12 +42,17 @@ def main():
             super().__init__(checkers=[])
             self.gates = 0
             self.writes = 0
+            self.base_commits = None
+            self.base_gates = None
 
         def after_exit(self, db, exc):
             if exc is None:
                 emit({"type": "commit", "n": self.ncommit, "task": self.last_tx.task_name if getattr(self, "last_tx", None) else None})
                 if crash.get("commit") == self.ncommit:
                     die(f"after commit {self.ncommit}")
+                if self.base_commits is not None and \
+                        crash.get("commit_after_events") == self.ncommit - self.base_commits:
+                    die(f"after commit {self.ncommit - self.base_commits} that follows the file-system events")
 
         def on_event(self, build, ev):
             if ev["type"] in ("cmd_start", "cmd_end"):
@@ -60,10 +72,63 @@ def main():
             mon.gates += 1
             if crash.get("gate") == mon.gates:
                 die(f"at gate {mon.gates}")
+            if mon.base_gates is not None and crash.get("gate_after_events") == mon.gates - mon.base_gates:
+                die(f"at gate {mon.gates - mon.base_gates} that follows the file-system events")
             await super().gate(info)
 
     ctl = Ctl(spec.get("policy", "free"), spec.get("seed", 0))
-    b = H.run_build(spec.get("cfg") or {}, ctl=ctl, monitors=[mon], env=spec.get("env") or {}, timeout=120)
+    driver = None
+    if spec.get("watch"):
+        import asyncio
+        import random
+
+        from vmon.checks import c14
+
+        c14.install_watch_hook()
+        w = spec["watch"]
+
+        async def driver(build):
+            build.watch_seen = []
+            while build.handler is None:
+                await asyncio.sleep(0.001)
+            handler = build.handler
+            try:
+                await handler.wait_for_idle()
+                for _ in range(5000):
+                    if handler.watcher.busy_watching.is_set():
+                        break
+                    await asyncio.sleep(0.002)
+                emit({"type": "watch_start", "commits": mon.ncommit, "gates": mon.gates, "writes": mon.writes})
+                rng = random.Random(w["seed"])
+                user_files = dict.fromkeys(w["user_files"], True)
+                memory = {}
+                for _ in range(w["nev"]):
+                    kind = rng.choice(c14.EVENT_KINDS)
+                    desc = c14.apply_event(rng, kind, user_files, memory)
+                    emit({"type": "fs_event", "kind": kind, "desc": desc})
+                mon.base_commits, mon.base_gates = mon.ncommit, mon.gates
+                emit({"type": "events_applied", "commits": mon.ncommit, "gates": mon.gates})
+                seen0 = len(build.watch_seen)
+                with open("zz-sentinel-0", "w") as fh:
+                    fh.write("x")
+                os.unlink("zz-sentinel-0")
+                for _ in range(3000):
+                    if any(c == "DELETED" and os.path.basename(p) == "zz-sentinel-0"
+                           for c, p in build.watch_seen[seen0:]):
+                        break
+                    await asyncio.sleep(0.001)
+                for _ in range(3):
+                    await asyncio.sleep(0.002)
+                emit({"type": "rebuild_start", "commits": mon.ncommit})
+                await handler.start_build_phase()
+                await handler.wait_for_idle()
+                emit({"type": "rebuild_end", "commits": mon.ncommit,
+                      "rc": handler.builder.returncode.value if handler.builder.returncode is not None else None})
+            finally:
+                await handler.shutdown()
+
+    b = H.run_build(spec.get("cfg") or {}, ctl=ctl, monitors=[mon], driver=driver,
+                    env=spec.get("env") or {}, timeout=120)
     emit({"type": "done", "rc": None if b.returncode is None else b.returncode.value,
           "error": b.error and [b.error[0], str(b.error[1])[-1500:]], "commits": mon.ncommit,
           "gates": mon.gates, "writes": mon.writes})
